@@ -377,6 +377,9 @@ class Orbital(object):
                 fallmins = horizon_mins
                 if risetime is None:
                     continue
+                if not risemins < fallmins:
+                    # the satellite only touches the horizon: not a pass
+                    continue
                 int_start = max(0, int(np.floor(risemins)))
                 int_end = min(len(elev), int(np.ceil(fallmins) + 1))
                 middle = int_start + np.argmax(elev[int_start:int_end])
